@@ -252,7 +252,7 @@ func C09_Leader() {
 		if !nvSeen && hasNewView(n, from) {
 			// the votes the leader had counted when it emitted the NEW_VIEW
 			nvSeen = true
-			stored, _ = n.st.GetViewChangeMessages(1, 2)
+			stored = votesAcceptedForStoring(n, 2)
 		}
 	}
 	c09CheckNewView(wd, from, nreq, stored, 2)
@@ -324,6 +324,28 @@ func c09CheckNewView(wd *vWorld, from, nreq int, stored []*interfaces.ViewChange
 	_ = protocol.LEAN_HELIX_NEW_VIEW
 }
 
+// votesAcceptedForStoring: the votes for (height 1, view) the node handed to its storage so far (first vote per
+// sender), taken from the recorder in front of the storage rather than from the storage's own getter
+func votesAcceptedForStoring(n *vNode, view primitives.View) []*interfaces.ViewChangeMessage {
+	var out []*interfaces.ViewChangeMessage
+	for _, e := range n.st.Events {
+		vc, ok := e.Msg.(*interfaces.ViewChangeMessage)
+		if !ok || e.Kind != "VC" || vc.BlockHeight() != 1 || vc.View() != view {
+			continue
+		}
+		dup := false
+		for _, o := range out {
+			if o.SenderMemberId().Equal(vc.SenderMemberId()) {
+				dup = true
+			}
+		}
+		if !dup {
+			out = append(out, vc)
+		}
+	}
+	return out
+}
+
 func hasNewView(n *vNode, from int) bool {
 	for _, s := range n.comm.Out[from:] {
 		if _, ok := s.Msg.(*interfaces.NewViewMessage); ok {
@@ -371,7 +393,7 @@ func C09_LeaderViews() {
 		n.deliver(vcm.ToConsensusRawMessage())
 		if !nvSeen && hasNewView(n, from) {
 			nvSeen = true
-			stored, _ = n.st.GetViewChangeMessages(1, 6)
+			stored = votesAcceptedForStoring(n, 6)
 		}
 	}
 	c09CheckNewView(wd, from, nreq, stored, 6)
